@@ -54,7 +54,8 @@ MsgOp(name, i) == [op |-> name, k |-> msgs[i].k, f |-> msgs[i].f, t |-> msgs[i].
 
 Step(n, r, rest, op, c) ==
   /\ Apply(n, r, rest)
-  /\ hist' = Append(hist, op @@ WaitOf(n, r.s) @@ [hm |-> Len(rest) + Len(r.out), ret |-> RetOf(n, r.s)])
+  /\ hist' = Append(hist, op @@ WaitOf(n, r.s) @@ [hm |-> Len(rest) + Len(r.out),
+                                                   ret |-> IF op.op = "init" /\ r.s.fst = "done" THEN n ELSE RetOf(n, r.s)])
   /\ pre' = ns
   /\ cnt' = c
 
